@@ -26,19 +26,24 @@ class C02(DiffProperty):
                "harness/c02_stream.c plays the transport: it moves finished bytes between the rings and enlarges the reader ring when it is full or the "
                "decoder asks for buffer (as mptio/stream/stream_poll.c does with mpt_queue_prepare)"]
     assumptions = ["the reader ring can grow (realloc succeeds)", "OS-level partial writes/timeouts of mptio are outside the model"]
-    level_text = ("proof (partial): SAFETY is proved end to end at ring level for all histories, LIVENESS for a reader that makes room before each call (C02_stream_delivers_all: as many calls as messages were sent deliver all of them and leave nothing unread). Flat level: C02_wire_splits_into_frames, "
+    level_text = ("proof (partial): SAFETY and LIVENESS are proved end to end at ring level. Flat level: C02_wire_splits_into_frames, "
                   "C02_stream_integrity_flat (all message sequences, all splits into pushes, all capacity schedules). Ring level, writer: C02_queue_push_refines (one "
                   "mpt_queue_push on a wrapped ring in any state keeps the stream-level encoder invariant, every branch: aligned, upper part, lower part, out-of-band "
                   "copy of a straddling block, second push, align-and-retry), C02_ring_writer_invariant, C02_ring_writer_total (no history faults), "
-                  "C02_ring_writer_stream (transport bytes + ring contents = the frames of the completed messages). Ring level, reader: C02_ring_reader_delivers (every "
+                  "C02_ring_writer_stream (transport bytes + ring contents = the frames of the completed messages). Ring level, reader, safety: C02_ring_reader_delivers (every "
                   "history of wire-ins, mpt_queue_recv incl. its MissingBuffer recovery with mpt_qpre and the chunked move, mpt_queue_shift, mpt_message_get and "
                   "enlargements by mpt_queue_prepare, on a ring of any capacity/offset, delivers the reference decodings of the frames at the front of the accepted "
-                  "bytes). Composition: C02_stream_end_to_end, C02_ring_to_ring (any prefix of the writer's stream in any pieces: delivered = a prefix of sent, in order). "
+                  "bytes); composition C02_stream_end_to_end, C02_ring_to_ring (any prefix of the writer's stream in any pieces: delivered = a prefix of sent, in order). "
+                  "Ring level, reader, liveness: C02_ring_round_delivers (unread bytes complete a frame the reference decoder accepts => mpt_queue_recv delivers it, or "
+                  "reports MissingBuffer and delivers it after ONE mpt_queue_prepare of bytes-to-delimiter+17 and a second mpt_queue_recv; never 'more input', never a "
+                  "decoding error), C02_ring_reader_delivers_all (from any reachable reader state between messages whose unread bytes are the frames of ms: |ms| rounds "
+                  "deliver exactly ms and empty the ring), C02_ring_to_ring_all (composed with the writer ring); call level C02_stream_delivers_all. "
                   "Tied to the code by differential execution of the same ring-level model (state compared after every operation) on rings of many capacities/offsets "
                   "with arbitrary wire cuts incl. single-byte delivery, decided against the specification 'received = sent'")
-    level_note = ("partial: liveness ('everything arrives after a drain') is proved for the flat call-level reader that leaves length+16 bytes of scratch space before each call (C02_stream_delivers_all, composed of C02_ring_writer_stream and the spaced-reader theorem of C03), not for the ring-level reader history rh_run; there it is "
-                  "decided for histories by the correspondence run; a genuine decoding error ends the reader history of the theorem; the mptio stream glue (mpt_stream_push/flush/poll/dispatch over a socketpair) has no "
-                  "mechanism model: it is executed and compared with the specification only (three defects found there and repaired). Theorems closed under the global context.")
+    level_note = ("partial: the transport between the rings is not in the theorems: the mptio stream glue (mpt_stream_push/flush/poll/dispatch over a socketpair, memory "
+                  "streams) has no mechanism model, it is executed and compared with the specification only (three defects found there and repaired); the liveness theorems "
+                  "take the frame bytes as already wired into the reader ring (partial frames: safety only); a genuine decoding error ends the reader history of the "
+                  "safety theorem. Theorems closed under the global context.")
     technique = "Coq theorems: ring-level writer and reader histories refine the stream-level codec invariants, end-to-end composition (delivered is a prefix of sent); specification-level differential check of the ring-level mechanism model"
     coq_dir = "Cobs"
     coq_deps = ("C13",)
